@@ -124,6 +124,9 @@ def run_case(rng, idx, tier, lane, ctx):
                 rounds.append((th2, list(x), t))
         x2, t2, _th = G.eval_point(rng, spec, lo=0.5, hi=6.0)
         rounds.append((list(rounds[-1][0]), list(x2), t2))
+        # ... and once more at the SAME state and parameters at ANOTHER time (what an integrator does at a fixed point of the state
+        # equations, and what a caller does who tabulates the system along t)
+        rounds.append((list(rounds[-1][0]), list(x2), round(t2 + rng.uniform(0.3, 3.0), 4)))
         sample = {"spec": spec, "rounds": rounds}
         for rnd, (th, x, t) in enumerate(rounds):
           if nP and rnd:
